@@ -625,7 +625,78 @@ class C15(Check):
             if isinstance(fn, ast.AsyncFunctionDef) and fn.name not in ("mbx_send", "mbx_recv"):
                 visit(fn, False, fn.name)
         ok = not bad and seen >= 6
-        return [("mailbox-calls-inside-lock", ok, f"{seen} mailbox calls found; outside `async with self.mbx_lock`: {bad}")]
+        return [("mailbox-calls-inside-lock", ok, f"{seen} mailbox calls found; outside `async with self.mbx_lock`: {bad}"),
+                self.lock_follows_address()]
+
+    def lock_follows_address(self):
+        """the lock a Terminal object uses is the one of the station address it talks to - after every initialize() / gentle_initialize(),
+        also when the object had another address (and lock) before: the users of one terminal exclude each other only if they all
+        lock its address"""
+        import random
+        from ebpfcat.ethercat import Terminal, ECCmd
+        rng = random.Random(self.seed + 115)
+        bad, calls = [], 0
+
+        class Lock:
+            def __init__(self, no):
+                self.no = no
+
+        async def run(script):
+            nonlocal calls
+            bus = {"station": script[0][2], "state": 1, "next": 1100}
+
+            class Ec:
+                def get_mbx_lock(self, no):
+                    return Lock(no)
+
+                async def find_free_address(self):
+                    bus["next"] += 1
+                    return bus["next"]
+
+                async def roundtrip(self, cmd, pos, offset, *args, data=None, idx=0):
+                    if cmd is ECCmd.APRD and offset == 0x10:
+                        return (bus["station"],)
+                    if cmd is ECCmd.APWR and offset == 0x10:
+                        bus["station"] = args[1]
+                        return ()
+                    if cmd is ECCmd.FPRD and offset == 0x130:
+                        return (bus["state"], 0)
+                    if cmd is ECCmd.FPWR and offset == 0x120:
+                        bus["state"] = args[1] & 15
+                        return ()
+                    if cmd is ECCmd.FPRD and offset == 4:
+                        return (3,)
+                    if cmd is ECCmd.FPRD and data is not None:
+                        return bytes(data) if isinstance(data, int) else data
+                    return ()
+            t = Terminal(Ec())
+
+            async def nothing(*a, **kw):
+                return None
+            t.apply_eeprom = t.read_eeprom = nothing
+            t.parse_sync_managers = lambda sm: None
+            for how, kw, stale, state in script:
+                bus["state"] = state
+                if "relative" in kw:
+                    bus["station"] = stale
+                calls += 1
+                await getattr(t, how)(**kw)
+                if getattr(t.mbx_lock, "no", None) != t.position:
+                    bad.append(f"after {[(h, k) for h, k, _, _ in script[:script.index((how, kw, stale, state)) + 1]]} the terminal talks to station {t.position} "
+                               f"and locks the mailbox of station {getattr(t.mbx_lock, 'no', None)}")
+                    return
+        for _ in range(60 if self.tier == "quick" else 600):
+            script = []
+            for _ in range(rng.randint(1, 3)):
+                how = rng.choice(["initialize", "gentle_initialize"])
+                kw = rng.choice([{"relative": -rng.randint(0, 5)}, {"absolute": rng.choice([1003, 1007, 1050])}] +
+                                ([{"relative": -1, "absolute": rng.choice([1003, 1009])}] if how == "initialize" else []))
+                script.append((how, kw, rng.choice([0, 0, 1200, 1201]), rng.choice([1, 1, 2, 8])))
+            try:
+                asyncio.run(run(script))
+            except Exception as e:      # noqa
+                bad.append(f"{script}: {type(e).__name__}: {e}")
+        return ("lock-follows-address", not bad, f"{calls} initialize / gentle_initialize calls on re-used Terminal objects; {bad[:1]}")
 
     def nontrivial(self, case, o):
         if isinstance(o, Err):
